@@ -147,12 +147,35 @@ def control_frames(chk, prog, fn, facts):
     oi = next(i for i, x in enumerate(prog.structs["humphrey_ws::frame::Frame"]["fields"]) if x["name"] == "opcode")
     pi = next(i for i, x in enumerate(prog.structs["humphrey_ws::frame::Frame"]["fields"]) if x["name"] == "payload")
 
+    OPS = prog.enums.get("humphrey_ws::frame::Opcode", {}).get("variants") or ["Continuation", "Text", "Binary", "Close", "Ping", "Pong"]
+    OPS = [v["name"] if isinstance(v, dict) else v for v in OPS]
+
+    def opcode_switch(s_):
+        """(info, edges by variant) if block s_ switches on a frame's opcode (a `match frame.opcode`)."""
+        info = switch_info(prog, b, s_)
+        if not info or info.get("kind") != "enum" or not (info.get("src_ty") or "").endswith("frame::Opcode"):
+            return None
+        return info
+
     def opcode_facts(blk):
         out = {}
         for (a, op, r) in panics.cmp_facts(prog, b, blk):
             for x, y in ((a, r), (r, a)):
                 if isinstance(y, tuple) and y and y[0] == "variant" and y[1].endswith("Opcode") and isinstance(x, tuple) and x[0] == "field" and x[2] == oi:
                     out[y[2]] = (op == "==")
+        # `match frame.opcode { .. }`: on the edge of one arm the opcode is one of that arm's variants and none of the others
+        for s_, lab, d, info in core.guards_dominating(prog, b, blk):
+            oinfo = opcode_switch(s_)
+            if oinfo is None:
+                continue
+            tgt = oinfo["edges"].get(lab)
+            same = [v for v, t_ in oinfo["edges"].items() if t_ == tgt]
+            for v in OPS:
+                if v in same:
+                    if len(same) == 1:
+                        out[v] = True
+                elif v in oinfo["edges"]:
+                    out[v] = False
         return out
     seen_ops = set()
     for blk, t in writes:
@@ -184,40 +207,65 @@ def control_frames(chk, prog, fn, facts):
     for op in ("Ping", "Close"):
         fact("R3.control", f"{op} handled", op in seen_ops, f"no reply is written on the opcode == {op} edge")
     # Pong: nothing is written, frame not pushed
+    pong_entries = []
     for s in range(len(b.blocks)):
         t = b.term(s)
         if t and t["k"] == "switch" and t.get("discr_ty") == "bool":
             d = core.describe(prog, b, t["discr"])
             if desc_contains(d, lambda y: y[0] == "variant" and y[1].endswith("Opcode") and y[2] == "Pong") and d[0] == "call" and d[1].endswith("PartialEq>::eq"):
                 info = switch_info(prog, b, s)
-                seen = b.reachable([info["edges"]["true"]], removed_nodes=set(x for x, _ in b.calls_to(r"Frame::from_stream")))
-                fact("R3.control", "a Pong is not answered", not any(w in seen for w, _ in writes), "")
-                fact("R4.assembly", "a Pong is not added to the message", not any(pb in seen for pb in pushes), "")
+                pong_entries.append(info["edges"]["true"])
+        elif t and t["k"] == "switch":
+            oinfo = opcode_switch(s)
+            if oinfo and "Pong" in oinfo["edges"] and [v for v, t_ in oinfo["edges"].items() if t_ == oinfo["edges"]["Pong"]] == ["Pong"]:
+                pong_entries.append(oinfo["edges"]["Pong"])
+    for pe in pong_entries:
+        seen = b.reachable([pe], removed_nodes=set(x for x, _ in b.calls_to(r"Frame::from_stream")))
+        fact("R3.control", "a Pong is not answered", not any(w in seen for w, _ in writes), "")
+        fact("R4.assembly", "a Pong is not added to the message", not any(pb in seen for pb in pushes), "")
+    if not pong_entries:
+        fact("R3.control", "a Pong is not answered", False, "no Pong case found")
     for pb in pushes:
         of = opcode_facts(pb)
         fact("R4.assembly", "only non-control frames are collected", all(of.get(k) is False for k in ("Ping", "Pong", "Close")), f"push under {of}", b.where(pb))
     chk.floor(f"fragment push in {tag}", len(pushes), 1)
-    # assembly: fold over frames.iter() in order; text from the first frame
-    folds = b.calls_to(r"Iterator::fold$|Iterator>::fold$")
-    ok = False
-    for blk, t in folds:
-        d = core.describe(prog, b, t["args"][0])
-        ok = desc_contains(d, lambda y: y[0] == "call" and y[1].endswith("::iter")) and not desc_contains(d, lambda y: y[0] == "call" and core.re.search(r"::(rev|skip|step_by|filter|take)$", y[1]) is not None)
-    fact("R4.assembly", "payloads are concatenated over all frames in arrival order", ok, "")
-    for c in prog.closures_of(fn):
-        ext = c.calls_to(r"Extend<.*>>::extend$|extend_from_slice$")
-        if ext:
-            d = core.describe(prog, c, ext[0][1]["args"][1])
+    # assembly: every collected frame contributes its payload, in order (fold over iter(), or a loop over the frames); text from the first
+    fam = [b] + prog.all_closures_of(fn)
+    REORDER = r"::(rev|skip|step_by|filter|take|skip_while|take_while|filter_map)$"
+    srcs = []
+    for bb in [b]:
+        for blk, t in bb.calls_to(r"Iterator::fold$|Iterator>::fold$|Iterator>?::next$|Iterator::next$|Iterator::for_each$"):
+            d = core.describe(prog, bb, t["args"][0])
+            over_frames = desc_contains(d, lambda y: y[0] == "call" and core.re.search(r"(::iter|into_iter)$", y[1]) is not None) and \
+                ("frame::Frame" in " ".join(t.get("arg_tys") or []) or "Frame" in str(bb.local_ty(core.op_local(t["args"][0]) or 0)))
+            if over_frames:
+                srcs.append((blk, d))
+    in_order = bool(srcs) and not any(desc_contains(d, lambda y: y[0] == "call" and core.re.search(REORDER, y[1]) is not None) for blk, d in srcs)
+    fact("R4.assembly", "payloads are concatenated over all frames in arrival order", in_order, f"{len(srcs)} iteration(s) over the collected frames")
+    n_ext = 0
+    for c in fam:
+        for blk, t in c.calls_to(r"Extend<.*>>::extend$|extend_from_slice$|Vec::<T, A>::append$"):
+            d = core.describe(prog, c, t["args"][1])
+            if "u8" not in " ".join(t.get("arg_tys") or []):
+                continue
+            n_ext += 1
             fact("R4.assembly", "each fragment contributes its payload", desc_contains(d, lambda y: y[0] == "field" and y[2] == pi), f"{panics.short_desc(d)}")
-    firsts = [(blk, t) for blk, t in b.calls_to(r"slice::<impl \[T\]>::(first|last|get)$")]
-    tx = [(blk, t) for blk, t in firsts if blk in b.reachable([fb for fb, _ in folds] or [0])]
-    fact("R4.assembly", "text/binary is taken from the first fragment", any(t["callee"].endswith("::first") for blk, t in tx) and not any(t["callee"].endswith("::last") for blk, t in tx),
-         f"{[t['callee'].split('::')[-1] for blk, t in tx]}")
-    for c in prog.closures_of(fn):
-        cmpc = [t for blk, t in c.calls_to(r"PartialEq>::eq$")]
+    if n_ext == 0:
+        fact("R4.assembly", "each fragment contributes its payload", False, "no payload concatenation found")
+    tds = []
+    for blk_ in b.blocks:
+        for st_ in blk_["stmts"]:
+            rv_ = st_.get("rv")
+            if rv_ and rv_.get("k") == "agg" and rv_.get("adt", "").endswith("message::Message") and "text" in (rv_.get("fields") or []):
+                tds.append(core.describe(prog, b, rv_["ops"][rv_["fields"].index("text")]))
+    via = [sorted(set(c[1].rsplit("::", 1)[-1] for c in core.desc_calls(d) if core.re.search(r"<impl \[T\]>::(first|last|get)$|::(nth|next_back)$", c[1]))) for d in tds]
+    fact("R4.assembly", "text/binary is taken from the first fragment", bool(tds) and all(v == ["first"] for v in via), f"text flag derives from {via}")
+    for c in fam:
+        cmpc = [t for blk, t in c.calls_to(r"PartialEq>::eq$|PartialEq::eq$")]
         for t in cmpc:
             dd = [core.describe(prog, c, a) for a in t["args"]]
-            if any(core.is_variant(x, "Opcode", "Text") or core.is_variant(x, "Opcode", "Binary") for x in dd):
+            if any(core.is_variant(x, "Opcode", "Text") or core.is_variant(x, "Opcode", "Binary") for x in dd) and \
+                    any(desc_contains(x, lambda y: y[0] == "call" and y[1].endswith("::first")) or c.kind == "closure" for x in dd):
                 fact("R4.assembly", "text flag <- (first.opcode == Text)", any(core.is_variant(x, "Opcode", "Text") for x in dd), f"{[panics.short_desc(x) for x in dd]}")
 
 
